@@ -157,6 +157,9 @@ var wantOps = []wantOp{
 	{"put", "/beta/things", "UpdateBeta", "Beta", false, "schemeD[read]", nil, "required", "200", nil},
 	{"get", "/beta/things", "ListBeta", "Beta", false, "schemeD[read]", []string{"filter:query:true", "rank:query:true"}, "", "200", nil},
 	{"patch", "/beta/things/{thingId}/", "PatchBeta", "Beta", false, "schemeD[read]", []string{"thingId:path:true"}, "optional", "202", []string{"409", "422"}},
+	{"post", "/gamma/widgets", "CreateWidget", "Gamma", false, "schemeD[read]", nil, "required", "200", []string{"500"}},
+	{"get", "/gamma/widgets/names", "ListWidgetNames", "Gamma", false, "schemeD[read]", []string{"colour:query:true"}, "", "200", nil},
+	{"post", "/gamma/receipts/{serial}", "IssueReceipt", "Gamma", false, "schemeD[read]", []string{"serial:path:true"}, "", "201", nil},
 }
 
 func checkOperations(doc specDoc, version string, report func(class, msg string)) {
@@ -216,6 +219,20 @@ func checkOperations(doc specDoc, version string, report func(class, msg string)
 			body = "optional"
 			if req, _ := dig(rb, "required").(bool); req {
 				body = "required"
+			}
+		}
+		if w.opID == "PatchBeta" {
+			// form fields are documented under their wire names; a field is required iff its annotation says so
+			sc := dig(op, "requestBody", "content", "application/x-www-form-urlencoded", "schema")
+			var props []string
+			if m, ok := dig(sc, "properties").(map[string]any); ok {
+				for k := range m {
+					props = append(props, k)
+				}
+			}
+			sort.Strings(props)
+			if req := strs(dig(sc, "required")); fmt.Sprint(props) != "[label_text weight]" || fmt.Sprint(req) != "[label_text]" {
+				report("C06-form-fields", fmt.Sprintf("%s: %s form body has properties %v required %v, want [label_text weight] required [label_text]", version, key, props, req))
 			}
 		}
 		if body != w.body {
@@ -282,7 +299,7 @@ func checkComponents(doc specDoc, version string, report func(class, msg string)
 		names = append(names, n)
 	}
 	sort.Strings(names)
-	if want := []string{"AlphaBody", "BetaBody", "Rank", "Rfc7807Error"}; fmt.Sprint(names) != fmt.Sprint(want) {
+	if want := []string{"AlphaBody", "BetaBody", "Colour", "Rank", "Receipt", "Rfc7807Error", "Widget"}; fmt.Sprint(names) != fmt.Sprint(want) {
 		report("C07-component-set", fmt.Sprintf("%s: components %v, want %v", version, names, want))
 	}
 	if got, want := strs(dig(schemas["Rank"], "enum")), []string{"high", "low", "mid", "top"}; fmt.Sprint(got) != fmt.Sprint(want) {
